@@ -325,7 +325,7 @@ BOUNDARY_OPS = [
     ["power", True], ["power", False],
     ["open_rx_pipe", 0, B("a1a2a3a4a5")], ["open_rx_pipe", 0, B("b1b2")], ["open_rx_pipe", 1, B("c1c2c3c4c5")],
     ["open_rx_pipe", 1, B("d1")], ["open_rx_pipe", 2, B("e1e2e3")], ["open_rx_pipe", 5, B("f1")],
-    ["open_rx_pipe", 6, B("0102030405")], ["open_rx_pipe", -1, B("0102030405")], ["open_rx_pipe", 1, B("")],
+    ["open_rx_pipe", 3, B("00")], ["open_rx_pipe", 6, B("0102030405")], ["open_rx_pipe", -1, B("0102030405")], ["open_rx_pipe", 1, B("")],
     ["close_rx_pipe", 0], ["close_rx_pipe", 1], ["close_rx_pipe", 6],
     ["open_tx_pipe", B("a1a2a3a4a5")], ["open_tx_pipe", B("7172737475")], ["open_tx_pipe", B("9192")],
     ["listen", True], ["listen", False],
@@ -356,7 +356,9 @@ def strategy(drv="full"):
                      st.lists(st.booleans(), max_size=7).map(lambda v: {"t": "tuple", "v": v}),
                      st.sampled_from([{"t": "none"}, {"t": "str", "v": "1"}]))
     addr = st.one_of(st.binary(min_size=1, max_size=5), st.binary(min_size=1, max_size=5), st.binary(min_size=5, max_size=5),
-                     st.binary(min_size=0, max_size=5 if lite else 6)).map(lambda b: {"t": "bytes", "v": b.hex()})
+                     st.binary(min_size=0, max_size=5 if lite else 6),
+                     st.lists(st.sampled_from([0x00, 0xFF, 0x01, 0xE7, 0xC2]), min_size=1, max_size=5).map(bytes)
+                     ).map(lambda b: {"t": "bytes", "v": b.hex()})
     pa = st.one_of(st.sampled_from([-18, -12, -6, 0]), st.sampled_from([-18, -12, -6, 0, 6, -1, -24]),
                    st.tuples(st.sampled_from([-18, -12, -6, 0, 3]), st.booleans()).map(lambda t: {"t": "list", "v": list(t)}),
                    st.tuples(st.sampled_from([-18, -12, -6, 0]), st.booleans(), st.integers(0, 9)).map(
